@@ -171,7 +171,7 @@ def gen_io(rng, big=False):
     kinds = [rng.choice(["ok", "ok", "okL", "okB", "okE", "missing", "badhdr", "garbage"]) for _ in range(nk)]
     kinds[0] = rng.choice(["ok", "okB"]); kinds[1] = rng.choice(["ok", "okL", "okL"])
     oks = [i for i, k in enumerate(kinds) if k.startswith("ok")]
-    links = sorted({(a, b) for a in oks for b in oks if b > a and rng.random() < 0.15})
+    links = sorted({(a, b) for a in oks for b in oks if b != a and rng.random() < 0.2})
     world = "world %s %s" % (",".join(kinds), ",".join("%d>%d" % e for e in links) or "-")
     ops, slots = [], []           # mirror of iolist occupancy (True = live)
     target = rng.choice([3, 6, 8, 8])
@@ -196,6 +196,9 @@ def gen_io(rng, big=False):
                 slots = []
             for g in [i + 1 for i, x in enumerate(slots) if x]:
                 ops.append("use %d" % g)
+        elif r < 0.72 and nlive and links:
+            c = rng.choice([i + 1 for i, x in enumerate(slots) if x])
+            ops.append("walk %d %d" % (c, rng.choice(links)[1]))
         elif r < 0.8:
             ops.append("use %d" % rng.choice(list(range(0, len(slots) + 2)) + [17]))
         elif r < 0.9:
@@ -250,6 +253,7 @@ def io_oracle(r):
         return [(None, {"problem": "crash or missing answers", "outcome": r["outcome"], "answers": len(r["impl"]), "ops": len(r["ops"])})], feats
     live, prev_tab, resets, maxlive, closed_once = {}, None, 0, 0, set()
     kinds = r["world"].split()[1].split(",")
+    wlinks = set(r["world"].split()[2].split(",")) if len(r["world"].split()) > 2 else set()
     if len(set(k for k in kinds if k.startswith("ok"))) > 1:
         feats.add("mixed-layouts")
     for op, l in zip(r["ops"], r["impl"]):
@@ -301,6 +305,15 @@ def io_oracle(r):
                 bad.append((None, {"problem": "a use through a number that is not open was accepted", "op": op, "answer": l}))
             if prev_tab is not None and tab != prev_tab:
                 bad.append((None, {"problem": "a use changed a table", "op": op, "answer": l, "before": prev_tab}))
+        elif t[0] == "walk":
+            c, b = int(t[1]), int(t[2])
+            if c in live and ("%d>%d" % (live[c], b)) in wlinks and b < len(kinds) and kinds[b].startswith("ok"):
+                feats.add("link-read")
+                if ans[1] != "0" or ans[2] != "F%d_t" % b:
+                    bad.append((None, {"problem": "a read through a link to another file failed or reached another file", "op": op, "answer": l,
+                                       "expected": "F%d_t" % b}))
+            elif c not in live and ans[1] == "0":
+                bad.append((None, {"problem": "a use through a number that is not open was accepted", "op": op, "answer": l}))
         elif t[0] == "get":
             c = int(t[1])
             if c not in live and ans[1] == "0":
